@@ -754,6 +754,26 @@ def leaf_field_name(t):
             return None
 
 
+def module_of(path):
+    """module path of an item path ('cadence::sinks::queuing::Worker' -> 'cadence::sinks::queuing')"""
+    path = strip_generics(path)
+    return path.rsplit('::', 1)[0] if '::' in path else path
+
+
+def in_module_of(b, anchor):
+    """Is body b code of the (private) module that defines `anchor` (an ADT path), or of one of its submodules?
+    (used instead of file names: moving code to another file or into a private submodule must not matter)"""
+    mod = module_of(anchor)
+    if b.impl_self:
+        h = type_head(b.impl_self)
+        if h.startswith(mod + '::'):
+            return True
+    p_ = strip_generics(b.path)
+    if p_.startswith('<'):
+        p_ = p_[1:]
+    return p_.startswith(mod + '::')
+
+
 class KeepOnly:
     """Report proxy: forwards only obligations whose instance ends with one of `suffixes` (a property that borrows a
     single clause of a shared rule); anchors and floors are always forwarded."""
